@@ -1,8 +1,11 @@
 use super::{Recorder, SetRecorderError};
+#[cfg(not(metrics_verif_loom))]
 use std::{
     cell::UnsafeCell,
     sync::atomic::{AtomicUsize, Ordering},
 };
+#[cfg(metrics_verif_loom)]
+use super::loom_shim::{AtomicUsize, Ordering, UnsafeCell};
 
 /// The recorder is uninitialized.
 const UNINITIALIZED: usize = 0;
@@ -21,7 +24,14 @@ pub struct RecorderOnceCell {
 }
 
 impl RecorderOnceCell {
+    /// Creates an uninitialized `RecorderOnceCell` (loom build: not `const`).
+    #[cfg(metrics_verif_loom)]
+    pub fn new() -> Self {
+        Self { recorder: UnsafeCell::new(None), state: AtomicUsize::new(UNINITIALIZED) }
+    }
+
     /// Creates an uninitialized `RecorderOnceCell`.
+    #[cfg(not(metrics_verif_loom))]
     pub const fn new() -> Self {
         Self { recorder: UnsafeCell::new(None), state: AtomicUsize::new(UNINITIALIZED) }
     }
